@@ -79,7 +79,7 @@ package node
 //@ ghost func LHash(n *LeafNode) hash.Hash { return ufr[hash.Hash]("leafHash", n.Key, n.Value) }
 
 //@ func Pointer.GetHash
-//@   trusted
+//@   props C04
 //@   modifies nothing
 //@   ensures result == PH(p)
 //@   note for a nil pointer the hash of the empty string
